@@ -8,8 +8,13 @@ import r_live
 import r_own
 
 PROPS = {
+    "C17": {
+        "rules": [r_own.rule_pre, r_own.rule_view, r_ovf.rule_ovf],
+        "floors": {},
+        "explanation": "tbd",
+    },
     "C08": {
-        "rules": [r_own.rule_own],
+        "rules": [r_own.rule_own, r_own.rule_view, r_m1.rule_prov, r_m1.rule_clamp, r_state.rule_seq, r_ovf.rule_ovf],
         "floors": {},
         "explanation": "tbd",
     },
